@@ -90,7 +90,7 @@ Section AddMain.
       assert (Vl : l = vtxs s) by (subst l; congruence).
       destruct (n =? length l)%nat eqn:En.
       + (* ErrOOM *)
-        cbn [fst snd fix_oom fixed_cfg].
+        cbn [fst snd fix_oom fixed_cfg repaired].
         unfold pend_of in *. destruct (oracle t) as [id|] eqn:Ot.
         * destruct O2 as [On O2]. apply add_post_err.
           -- eapply clear_pending_inv; eauto.
